@@ -80,6 +80,15 @@ def families():
         pass
     Reg.register(Goose)
     fams.append(('abc', [Quacks, Duck, Reg, Goose], [Duck, Duckling, Goose]))
+
+    # duck type whose hook answers with a plain bool, as the library's own _AbstractIterable does: it is not a
+    # subclass of itself (issubclass(HasBag, HasBag) is False), while Bag and its subclasses are
+    class HasBag(metaclass=abc.ABCMeta):
+        @classmethod
+        def __subclasshook__(cls, C):
+            return hasattr(C, 'bag')
+    Bag = type('Bag', (), {'bag': ()}); SubBag = type('SubBag', (Bag,), {}); Other = type('Other', (), {})
+    fams.append(('abc-bool-hook', [HasBag, Bag, SubBag], [Bag, SubBag, Other]))
     return fams
 
 
@@ -226,6 +235,22 @@ def reregistration(col, contract):
                               % (op, seen), None)
             if contract.disagreements:
                 del contract.disagreements[:]     # (the contract's bookkeeping marks Mid as non-exact from the second call on: same verdict)
+
+
+def repeated_registration(col, contract):
+    """every family, every ordered pair of types registered without exact=True, then either of them registered a second
+    time: the nearest-type relation is the one of the set {X, Y} (systematic, independent of the sampled configurations)"""
+    for name, registrable, classes in families():
+        instances = [make_instance(c) for c in classes]
+        for x, y in itertools.permutations(registrable, 2):
+            for again in (x, y):
+                for default_types in (True, False):
+                    label = ('Glommer()' if default_types else 'Glommer(register_default_types=False)') + ' (one type registered twice)'
+                    order = (x, y, again)
+                    col.case((name, tuple(t.__name__ for t in order), 'repeat-systematic', default_types), True)
+                    col.count('histories_with_a_repeated_registration')
+                    run_config(col, 'glommer', glommer_driver(default_types), name, registrable, order, (False, False, False),
+                               instances, contract, label)
 
 
 def glommer_driver(default_types):
@@ -388,12 +413,14 @@ def run(ctx):
     col.require('api_lookups', 2000)
     col.require('handler_lookups_checked', 2000)
     col.require('registration_histories', 50)
+    col.require('histories_with_a_repeated_registration', 20)
     col.require('global_registry_processes', 1)
     try:
         if ctx.shard == 0:
             parity(col)
             isolation(col, rng)
             reregistration(col, contract)
+            repeated_registration(col, contract)
         fams = families()
         for name, registrable, classes in fams:
             instances = [make_instance(c) for c in classes]
@@ -405,6 +432,15 @@ def run(ctx):
                     label = 'Glommer()' if default_types else 'Glommer(register_default_types=False)'
                     col.case((name, tuple(t.__name__ for t in order), exacts, default_types), len(order) >= 2)
                     run_config(col, 'glommer', glommer_driver(default_types), name, registrable, order, exacts, instances, contract, label)
+                    if rng.random() < 0.5:
+                        # the same type registered in two calls (the library's own idiom: register(dict, get=..) and then
+                        # register(dict, keys=..)), same exact flag: the nearest-type relation is unchanged by the repeat
+                        i = rng.randrange(len(order))
+                        order2, exacts2 = tuple(order) + (order[i],), tuple(exacts) + (exacts[i],)
+                        col.case((name, tuple(t.__name__ for t in order2), exacts2, default_types, 'repeat'), True)
+                        col.count('histories_with_a_repeated_registration')
+                        run_config(col, 'glommer', glommer_driver(default_types), name, registrable, order2, exacts2, instances, contract,
+                                   label + ' (one type registered twice, each call naming a subset of the operations)', partial_rng=rng)
                     if rng.random() < 0.5:
                         col.case((name, tuple(t.__name__ for t in order), exacts, default_types, 'partial-ops'), len(order) >= 2)
                         run_config(col, 'glommer', glommer_driver(default_types), name, registrable, order, exacts, instances, contract,
